@@ -98,6 +98,7 @@ type FnEnc struct {
 	modRefsFn map[string][]modT
 	errs     []string
 	defers   []deferred
+	ghosts   map[string]HeapVar
 }
 
 type localRef struct {
